@@ -199,6 +199,19 @@ def run(ck: Check):
                 ck.violation("diff_test: a run that timed out and one that exited 0 are reported as no difference",
                              {"module": "diff_test", "timeout": True, "files": mode is not None})
 
+        both = os.path.join(work, "both.py")
+        with open(both, "w") as f:
+            f.write("#!" + PY + "\nimport sys,time\nsys.stdout.write(sys.argv[2] if sys.argv[1]=='A' else sys.argv[3]); sys.stdout.flush()\ntime.sleep(3)\n")
+        os.chmod(both, 0o755)
+        for oa, ob in (("same\n", "same\n"), ("left\n", "right\n"), ("", "x")):
+            for mode in (None, os.path.join(work, "both")):
+                got = diff_test.interesting(["-t", "1", "-a", "A", "-b", "B", both, oa, ob], mode)
+                ck.count("diff_test")
+                ck.nontrivial(("diff-both-timeout", oa, ob, mode is not None))
+                if got is not (oa != ob):
+                    ck.violation(f"diff_test: both runs time out after printing {oa!r} / {ob!r} ({'log files' if mode else 'in memory'}): "
+                                 f"got {got}, documented meaning {oa != ob}",
+                                 {"module": "diff_test", "timeout": "both", "stdout_a": oa, "stdout_b": ob, "files": mode is not None})
         # ------------------------------------------------------------ repeat
         calls = []
         inner = types.ModuleType("lv_inner_test")
